@@ -94,6 +94,7 @@ def r2_hash_weights(ctx):
     kcls = ix.cls(K, "KmerEncoder")
     runner = MethodRunner(ix)
     bad = []
+    narrow = []
     for k in (1, 2, 3, 4):
         for n in (2, 3, 4, 5, 20):
             obj = Obj(kcls)
@@ -101,8 +102,12 @@ def r2_hash_weights(ctx):
             w = obj.attrs().get("_convolution")
             if not isinstance(w, np.ndarray) or list(w) != [n ** i for i in range(k)]:
                 bad.append(f"k={k} |A|={n}: {None if w is None else list(w)}")
+            elif w.dtype.kind in "iu" and w.dtype.itemsize < 8:
+                narrow.append(f"k={k} |A|={n}: weights are {w.dtype}")
     ctx.count("weight_configs", 20)
     ctx.ob(kcls.where, "generic k-mer weights are |A|**i for letter i (little-endian), for k in 1..4 and |A| in {2,3,4,5,20}", not bad, "; ".join(bad[:4]), key="C13-R2|weights")
+    ctx.ob(kcls.where, "the weights (and so the dot product) are 64-bit integers for every k: with narrower weights the hash of a long k-mer wraps at the one k where "
+           "|A|**k first exceeds the narrow range", not narrow, "; ".join(narrow[:3]), key="C13-R2|weights-width")
     call = ix.func(K, "KmerEncoder.__call__")
     e = [n for n in body_walk(call.node) if isinstance(n, ast.Return)]
     ok = len(e) == 1 and isinstance(e[0].value, ast.Call) and sym.canon(e[0].value.args[0]) in (f"{call.params[1]}.data.dot(self._convolution)", f"{call.params[1]}.raw().dot(self._convolution)") \
@@ -347,6 +352,10 @@ def r7_exact_match_and_short_input(ctx):
 from ..through_time import make_rule as _mk_tt
 _through_time = _mk_tt("C13")
 
+def _delta_arrays(ctx):
+    from ..idioms import check_delta_arrays
+    check_delta_arrays(ctx, [m for m in ctx.index.modules if m.startswith("bionumpy.sequence") or m == "bionumpy.encodings.kmer_encodings"], "C13-R8")
+
 RULES = [
     ("C13-R1", r1_trailing_trim),
     ("C13-R2", r2_hash_weights),
@@ -356,4 +365,5 @@ RULES = [
     ("C13-R6", r6_label_cache_keys),
     ("C13-R7", r7_exact_match_and_short_input),
     ("C13-T1", _through_time),
+    ("C13-R8", _delta_arrays),
 ]
